@@ -996,7 +996,7 @@ func TestProp(t *testing.T) {
 
 	// ---------------------------------------------------------------- capacity
 	capRule := "a program family with a closed-form value (n-term sum/&&/||/ternary/else-if chains, the same sum inside if/while/function/computed bodies, n-element list/dict/argument/template-part/statement sequences, n-deep if/template/hole/while/function/paren/array/call/dict nesting, ranges/repeats/concats/slice inserts of n elements, n dice, pools of n, recursion and loops of depth n) with n drawn around the capacity it crosses (8192 instructions, 1000 stack slots, 20 nested blocks, 512 elements, 20000 pool, the operation budget) x OpCountLimit {1000,30000; 10^6 for the long straight-line programs} x mode: the outcome is the closed-form value or an error, plus the budget oracles; non-trivial = n within a factor 2 of the capacity or the run was rejected; distinct by (family, n, m, configuration)"
-	run.Check("capacity", 520, 8000, capRule, func(t *rapid.T, s *rt.Section) {
+	run.Check("capacity", 520, 6000, capRule, func(t *rapid.T, s *rt.Section) {
 		f := familyByName(familyNames()[pick(t, "family", len(families))])
 		c := Case{Fam: f.name, M: rapid.IntRange(0, 1000).Draw(t, "m")}
 		c.Cfg = vmx.Cfg{
@@ -1148,7 +1148,7 @@ func TestProp(t *testing.T) {
 
 	// ---------------------------------------------------------------- pad
 	padRule := "P = generated program (statements, functions, computed values, templates, seeded dice of every family, single-key dicts) compared with '424242*0*(1+…+1); P' on a fresh VM of the same seed and configuration, the padding sized so that the 8192th instruction falls at a drawn position inside P (or, while finding C07-F01 is open, stays below it): same result, variables and rest text, or an error; non-trivial = padding + P cross the 8192-instruction capacity, or the padded run was rejected; distinct by (P, padding, configuration)"
-	run.Check("pad", 128, 2000, padRule, func(t *rapid.T, s *rt.Section) {
+	run.Check("pad", 128, 1600, padRule, func(t *rapid.T, s *rt.Section) {
 		c := Case{Cfg: vmx.Cfg{OpLimit: 30000, CoC: true, WoD: true, Fate: true, DC: true,
 			Mode:    rapid.SampledFrom([]string{"", "min", "max"}).Draw(t, "mode"),
 			SeedHex: drawSeed(t)}}
